@@ -8,10 +8,10 @@ pub fn prop() -> Prop {
     Prop {
         id: "C11",
         level: "model_checking",
-        rule: "all sequences S of <=5 (thorough <=7) values over a 6-value universe (three records with per-record regex patterns incl. an invalid one, a record without the selected members, a scalar, an array with a nested cell longer than 64 bytes; two records share a pattern and a split element but differ in what a macro reads besides `.`) — i.e. every concatenation A.B with |A|+|B| <= 5 (thorough 7), every permutation and every duplication — x 20 pipelines made of --set, --split-by, --filter, --select (regex functions with cache sizes 0,1,2; variables; macros; previously selected names; ^ after split; --only-objects-and-arrays) x 5 output styles (one-line, consise, pretty, text, csv) plus text with --headers; and sequences of 64, 257 and 1031 values; non-trivial = S holds two values with different rows; distinct by construction",
+        rule: "all sequences S of <=5 (thorough <=7) values over a 6-value universe (three records with per-record regex patterns incl. an invalid one, a record without the selected members, a scalar, an array with a nested cell longer than 64 bytes; two records share a pattern and a split element but differ in what a macro reads besides `.`) — i.e. every concatenation A.B with |A|+|B| <= 5 (thorough 7), every permutation and every duplication — x 20 pipelines made of --set, --split-by, --filter, --select (regex functions with cache sizes 0,1,2; variables; macros; previously selected names; ^ after split; --only-objects-and-arrays) x 5 output styles (one-line, consise, pretty, text, csv) plus text with --headers; and sequences of 64, 257 and 1031 values; sequences of <=4 values mixing small records with rows of 1 KiB, 9 KiB and 20 KiB; non-trivial = S holds two values with different rows; distinct by construction",
         explanation: "metamorphic: out(S) must be the header (out of the empty input) followed by the bodies of out([s]) for each s in S in order; this single relation over all S implies out(A.B)=out(A).out(B), permutation and duplication",
         assumptions: COMMON_ASSUMPTIONS.to_vec(),
-        guards: vec!["hundreds-of-records", "two-patterns-through-a-one-entry-cache", "header-printed-once", "split-produced-rows", "value-dropped-by-filter", "repeated-value"],
+        guards: vec!["row-beyond-every-buffer", "hundreds-of-records", "two-patterns-through-a-one-entry-cache", "header-printed-once", "split-produced-rows", "value-dropped-by-filter", "repeated-value"],
         budget_s: (100, 2400),
         single_worker: false,
         run,
@@ -189,6 +189,44 @@ fn run(ctx: &mut Ctx) {
                 if ctx.time_up() {
                     ctx.cap(&format!("sequences of length {len}"));
                     return;
+                }
+            }
+            // size thresholds: rows far beyond any output buffer between small ones (a writer that batches small
+            // rows but passes big ones through must not reorder them)
+            {
+                let big = ["{\"n\":1,\"s\":\"aab\",\"p\":\"^a+\",\"l\":[1,2]}".to_string(), format!("{{\"n\":7,\"s\":\"{}\",\"p\":\"x\",\"l\":[5]}}", "b".repeat(1100)), format!("{{\"n\":8,\"s\":\"{}\",\"p\":\"y\",\"l\":[6,7]}}", "c".repeat(9000)), format!("[\"{}\"]", "d".repeat(20000))];
+                let single: Vec<Obs> = big.iter().map(|t| ctx.run(&Case::owned(args.clone(), format!("{t}\n").into_bytes()))).collect();
+                if single.iter().all(|o| o.res.is_ok() && o.stdout.starts_with(&header.stdout)) {
+                    let mut todo: Vec<Vec<usize>> = Vec::new();
+                    for l in 2..=4 {
+                        crate::explore::seqs_exact(big.len(), l, |i| todo.push(i.to_vec()));
+                    }
+                    for idx in todo {
+                        if !idx.iter().any(|i| *i >= 2) {
+                            continue;
+                        }
+                        let input: String = idx.iter().map(|i| format!("{}\n", big[*i])).collect();
+                        let case = Case::owned(args.clone(), input.into_bytes());
+                        let got = ctx.run(&case);
+                        ctx.case_done();
+                        ctx.trace_validated();
+                        ctx.nontrivial();
+                        ctx.guard("row-beyond-every-buffer");
+                        let mut expected = header.stdout.clone();
+                        for i in &idx {
+                            expected.extend_from_slice(&single[*i].stdout[hl..]);
+                        }
+                        if !got.res.is_ok() || got.stdout != expected {
+                            let pos = got.stdout.iter().zip(expected.iter()).position(|(a, b)| a != b).unwrap_or(got.stdout.len().min(expected.len()));
+                            ctx.violation(
+                                "output-of-a-sequence-is-not-the-concatenation-of-the-outputs-of-its-values",
+                                &format!("{sig} rows of 1 KiB / 9 KiB / 20 KiB between small ones"),
+                                &[case.clone()],
+                                format!("{} bytes", expected.len()),
+                                format!("{} bytes, first difference at byte {pos}: {}", got.stdout.len(), got.res.short()),
+                            );
+                        }
+                    }
                 }
             }
             // size thresholds: hundreds of records in one run (counters, buffers and caches that only wrap or grow late)
